@@ -35,6 +35,15 @@ def space(tier, seed):
         for al in lists(targets, [('lit', 'Z'), F('a', 2), ('cat', F('a', 1), F('a', 2)), ('NU',)], 3):
             if len(al) == 3:
                 qs.append(('plain', {'kind': 'update', 'assign': al, 'where': wheres[len(qs) % 3], 'join': None}))
+    wide_assign = [
+        [(F('a', 1), F('a', 6)), (F('a', 6), F('a', 1)), (F('a', 3), ('lit', 'Z')), (F('a', 4), ('NU',))],
+        [(F('a', 5), ('cat', F('a', 1), F('a', 2))), (F('a', 4), F('a', 5)), (F('a', 3), F('a', 4)), (F('a', 2), F('a', 3)), (F('a', 1), F('a', 2))],
+        [(F('a', i), ('NR',)) for i in (6, 5, 4, 3, 2, 1)],
+        [(F('a', 10, 'a[N]'), F('a', 1)), (F('a', 1), F('a', 10)), (F('a', 11), ('lit', 'w'))],
+    ]
+    for al in wide_assign:
+        for w in wheres:
+            qs.append(('wide', {'kind': 'update', 'assign': al, 'where': w, 'join': None}))
     ntargets = [('named', 'a', n1, 'attr'), ('named', 'a', n2, 'dq'), ('named', 'a', n2, 'sq'), F('a', 1)]
     nrhs = [('lit', 'Z'), ('named', 'a', n2, 'attr'), ('cat', ('named', 'a', n1, 'attr'), ('named', 'a', n2, 'dq')), ('NU',), F('a', 2)]
     for al in lists(ntargets, nrhs, 2):
@@ -69,7 +78,9 @@ def run_shard(sh):
     res = core.Result()
     sp_ = space(sh['tier'], sh['seed'])
     maxrows = 3 if sh['tier'] == 'thorough' else 2
-    tabs = {'plain': list(qcheck.tables_upto(sp_['rows'], maxrows)) + [qcheck.long_table(sp_['rows'], 2)],
+    w6 = [['c%d' % i for i in range(1, 7)], ['d%d' % i for i in range(1, 7)], ['e%d' % i for i in range(1, 12)], ['f%d' % i for i in range(1, 6)]]
+    tabs = {'wide': list(qcheck.tables_upto(w6, 2)) + [w6 * 3],
+            'plain': list(qcheck.tables_upto(sp_['rows'], maxrows)) + [qcheck.long_table(sp_['rows'], 2)],
             'named': list(qcheck.tables_upto(sp_['nrows'], maxrows + 1)) + [qcheck.long_table(sp_['nrows'], 3)],
             'join': list(qcheck.tables_upto(sp_['jrows'], maxrows)) + [qcheck.long_table(sp_['jrows'][:4], 2)]}
     jscases = []
